@@ -59,12 +59,21 @@ type genericBlock struct {
 	opts              *warcRecordOptions
 	rawBytes          io.Reader
 	blockDigest       *digest
+	payloadDigest     *digest // set for records whose payload is the whole block (resource records)
 	filterReader      *digestFilterReader
 	blockDigestString string
 }
 
 func newGenericBlock(opts *warcRecordOptions, r io.Reader, d *digest) *genericBlock {
 	return &genericBlock{opts: opts, rawBytes: r, blockDigest: d}
+}
+
+// digests returns the digests to be fed by the first reader of the block.
+func (block *genericBlock) digests() []*digest {
+	if block.payloadDigest != nil {
+		return []*digest{block.blockDigest, block.payloadDigest}
+	}
+	return []*digest{block.blockDigest}
 }
 
 func (block *genericBlock) IsCached() bool {
@@ -101,7 +110,7 @@ func (block *genericBlock) Close() error {
 
 func (block *genericBlock) RawBytes() (io.Reader, error) {
 	if block.filterReader == nil {
-		block.filterReader = newDigestFilterReader(block.rawBytes, block.blockDigest)
+		block.filterReader = newDigestFilterReader(block.rawBytes, block.digests()...)
 		return block.filterReader, nil
 	}
 
@@ -122,7 +131,7 @@ func (block *genericBlock) RawBytes() (io.Reader, error) {
 func (block *genericBlock) BlockDigest() string {
 	if block.blockDigestString == "" {
 		if block.filterReader == nil {
-			block.filterReader = newDigestFilterReader(block.rawBytes, block.blockDigest)
+			block.filterReader = newDigestFilterReader(block.rawBytes, block.digests()...)
 		}
 		_, _ = io.Copy(io.Discard, block.filterReader)
 		block.blockDigestString = block.blockDigest.format()
